@@ -18,7 +18,7 @@ RULE = (
     "evaluations counts strings parsed; non-trivial = the string is not grammar-conforming."
 )
 BUDGET = {"quick": 16000, "thorough": 400000}
-TIME_CAP = {"quick": 70, "thorough": 1500}
+TIME_CAP = {"quick": 240, "thorough": 1500}
 MIN_PER_SHARD = 50
 ANCHORS = c01.ANCHORS[:7]
 REQUIRED_MONITORS = ["exception-type", "retained-prefix", "numeric-coordinates", "post-operations", "steps", "finite-coordinates"]
